@@ -40,3 +40,18 @@ def no_scheme_userinfo_port(u, strip_suffix):
         back = urlsplit("//" + s)
         return back.netloc == r.netloc and "@" not in back.netloc
     return True
+
+
+def same_fingerprint_after_other_calls(u, v):
+    """the answer for strip_suffix=True does not depend on earlier calls with other options"""
+    try:
+        fingerprint_url(u, strip_suffix=False)
+        fingerprint_url(v, strip_suffix=False)
+        a = fingerprint_url(u, strip_suffix=True)
+    except Exception:
+        return True
+    try:
+        b = fingerprint_url(v, strip_suffix=True)
+    except Exception:
+        return False
+    return a == b
